@@ -115,6 +115,36 @@ func VerifC19Crash() {
 	if !crashed && opErr == nil {
 		vAssert(newState, "C19.saved: a save that reported success is not in the file")
 	}
+	// history: whatever the interrupted or failed operation left behind (e.g. a
+	// temporary file), the next operation - fault free - works and is durable
+	switch vChoice("then", 3) {
+	case 1:
+		err := removeConfig(fname, "old")
+		names2, _, ok2 := vConfigNames(fname)
+		if !ok2 {
+			vAssert(false, "fault:C19.then.torn: after an interrupted save, the next (fault-free) delete leaves a settings file that no longer parses")
+			return
+		}
+		if err == nil {
+			for _, n := range names2 {
+				vAssert(n != "old", "fault:C19.then.lost: a delete after an interrupted save reported success but the entry is still there")
+			}
+		}
+	case 2:
+		err := setConfig(fname, vMustURL("http://x/?config=z&f=fz"))
+		names2, _, ok2 := vConfigNames(fname)
+		if !ok2 {
+			vAssert(false, "fault:C19.then.torn: after an interrupted save, the next (fault-free) save leaves a settings file that no longer parses")
+			return
+		}
+		has := false
+		for _, n := range names2 {
+			if n == "z" {
+				has = true
+			}
+		}
+		vAssert(err != nil || has, "fault:C19.then.lost: a save after an interrupted save reported success but is not in the file")
+	}
 }
 
 // VerifC19Concurrent: two concurrent requests take effect as if performed one after another.
